@@ -64,6 +64,9 @@ func (m *Machine) ensureSched(fr *frame) *scheduler {
 	if m.sched != nil {
 		return m.sched
 	}
+	if m.initing > 0 {
+		m.unsupported("channel or goroutine operation during package initialisation")
+	}
 	s := &scheduler{m: m, shadows: map[interface{}]*shadow{}, exited: make(chan struct{})}
 	g0 := &goroutine{id: 0, name: "main", resume: make(chan struct{}), vc: vclock{0: 1}}
 	s.gs = []*goroutine{g0}
@@ -77,6 +80,10 @@ func (m *Machine) ensureSched(fr *frame) *scheduler {
 }
 
 func (m *Machine) goStmt(fr *frame, fn value, args []value) {
+	if m.initing > 0 {
+		// background goroutines of package initialisers are not modelled
+		return
+	}
 	if m.mergeDepth > 0 {
 		panic(pathEnd{kind: endAbortMerge, msg: "go statement inside merged call"})
 	}
